@@ -4,6 +4,7 @@ histories (AllocGen.tla) that are replayed into the real Dlmalloc over a simulat
 every recorded step against the invariants of AllocAbs (AllocTrace.tla)."""
 import concurrent.futures
 import copy
+import os
 import re
 import time
 
@@ -210,6 +211,26 @@ def run(tier):
                     for osd in ("d", "b", "a"):
                         plans.append({"kind": "hist", "slots": 4, "ops": ops, "os": osd, "walk": True,
                                       "src": "directed-retired-segment-with-minimal-survivor"})
+    # directed family "the N-th large free empties a retired segment": the periodic release pass of free
+    # (every MAX_RELEASE_CHECK_RATE-th free that files a chunk into a tree bin) is driven: under disjoint
+    # placement a block A in a retired segment, then N counted frees (malloc 300 / free next to a live pin:
+    # tree-binned, quiet), then free(A) - the free that makes the whole segment one free chunk - for N
+    # around the rate, so that it is the free just before, exactly at and just after the pass
+    rate = 4095
+    m_rate = re.search(r"const\s+MAX_RELEASE_CHECK_RATE\s*:\s*usize\s*=\s*(\d+)", open(os.path.join(core.REPO, "tiny-std/src/allocator/dlmalloc.rs")).read())
+    if m_rate:
+        rate = int(m_rate.group(1))
+    fill = k["granularity"] - 120      # leaves exactly a minimal chunk of top in a one-granule segment
+    for n_before in (range(rate - 2, rate + 1) if quick else range(rate - 4, rate + 3)) if rate <= 10000 else ():
+        loop = []
+        for _ in range(n_before - 1):
+            loop += [["m", 2, 300, 16], ["f", 2]]
+        # A fills its segment up to a 32-byte remainder, the next mapping retires the segment (remainder
+        # binned), X/pin live in the head segment; free(A) is counted free number n_before + 1
+        ops = ([["m", 0, fill, 16], ["m", 1, 200000, 16], ["m", 2, 300, 16], ["m", 3, 40, 16], ["f", 2], ["q", 0, 1]] + loop
+               + [["q", 0, 0], ["f", 0], ["m", 0, 5000, 16], ["m", 2, 300, 16], ["f", 2], ["f", 0], ["f", 3], ["f", 1]])
+        plans.append({"kind": "hist", "slots": 4, "ops": ops, "os": "d", "walk": False, "watchdog": 300,
+                      "src": "directed-nth-large-free-empties-retired-segment"})
     # unsatisfiable requests (legal layouts far beyond what any OS grants): null, nothing lost,
     # the heap stays usable; logged sizes are clamped to 2^29 (>= Huge) for TLC's integers
     for i, huge in enumerate([1 << 31, 1 << 40, (1 << 62) + 12345, (1 << 63) - 4096 - 1]):
@@ -257,6 +278,13 @@ def run(tier):
                 ops += [["f", 1], ["m", 2, 5000, 64], ["r", 0, keep_sz + 1000], ["m", 1, big // 2, 4096], ["f", 1], ["f", 2]]
                 deny_plans.append({"kind": "hist", "slots": 4, "ops": ops, "real": True, "amplify": True, "src": "real-os-refusing-kernel"})
     deny_plans += [p for p in real_plans if p.get("kind") == "rand"][:20 if quick else 150]
+    # fork (real OS): blocks allocated and filled, fork, the child overwrites every block, uses the
+    # allocator and exits, the parent goes on - its blocks must be untouched (Intact) and the kernel must
+    # report the mapping that holds a live block as private, anonymous, rw (PrivateAnonymous)
+    for sizes in ([5000, 100000], [40, 3 * k["trim_threshold"] // 2, 1016], [24, 233, 65433, 300000]):
+        ops = [["m", i, sz, 16] for i, sz in enumerate(sizes)] + [["k", 0, 0], ["r", 0, sizes[0] + 1000], ["m", 5, 200, 16], ["k", 0, 0],
+                                                               ["f", 1], ["m", 1, 70000, 64], ["k", 0, 0], ["f", 5]]
+        real_plans.append({"kind": "hist", "slots": 6, "ops": ops, "real": True, "src": "real-os-fork"})
     # debug build (internal assertions on): everything; release build: the sampled parts
     # (re-bound sequences, refusal at every position, random histories).  Plans are processed in
     # chunks so that memory stays bounded in the thorough tier.
